@@ -7,7 +7,7 @@
 #include <string.h>
 #include <nstd/Base.hpp>
 
-enum { TRK_MAX = 1 << 22 };
+enum { TRK_MAX = 1 << 26 };   // serial numbers are never reused: long histories over thousands of keys construct tens of millions of temporaries
 static unsigned char* trk_state = 0;      // 0 = never used, 1 = alive, 2 = destroyed
 static long trk_next = 1;                 // next serial
 static long trk_constructed = 0;          // all constructors (default, value, copy)
